@@ -912,7 +912,7 @@ func Adm(stream string, seed int64, n int, pf string, mix []string) (*cq.Set, *c
 	}
 	if stream == "c03adm" {
 		c03admTriples(set, in, r, (n+2)/3, real, marker)
-		set.Rule = "the level ordering seen through Admission.Validate: one pod CREATE / UPDATE (pods drawn on each side of each level, real registry) sent under enforce = restricted, baseline and privileged at one version from " + strings.Join(c03admVersions, ",") + " (via the namespace labels or, every third triple, the configured defaults), exemptions cleared; Go-side oracle: for API-valid pods, allowed under a stricter level implies allowed under a laxer one; every request is also compared with the admission model (P01 + model equality)"
+		set.Rule = "the level ordering seen through Admission.Validate: one pod CREATE / UPDATE (pods drawn on each side of each level, real registry) sent under enforce = restricted, baseline and privileged at one version from " + strings.Join(c03admVersions, ",") + " (via the namespace labels or, every third triple, the configured defaults), exemptions cleared; Go-side oracle: for API-valid pods, allowed under a stricter level implies allowed under a laxer one, and (the audit mode follows the enforce mode of the triple) no audit-violations annotation at a stricter level implies none at a laxer one; every request is also compared with the admission model (P01 + model equality)"
 		n = 0
 	}
 	for i := 0; i < n; i++ {
